@@ -61,9 +61,8 @@ Theorem C01_reported_power : forall (K : fops) (KOK : fops_ok K) (n : network K)
 Proof. exact api_power. Qed.
 Print Assumptions C01_reported_current.
 
-(* Not proved (hence the label): completeness of the executable Gauss-Jordan procedure, i.e.
-   WellPosed n -> solve_network n <> Err ESingular.  C01_solvable + C01_unique_vector show the system it is
-   given has exactly one solution; that the elimination finds it is checked per run by the correspondence. *)
+(* "A valid network never fails to solve": the statement; it is proved in Properties/C01b.v
+   (C01_never_fails_discharged, via completeness of the executable Gauss-Jordan procedure, Theory/Gauss.v). *)
 Definition C01_never_fails_full : Prop := forall (K : fops) (KOK : fops_ok K) (n : network K),
   wf n -> WellPosed n -> exists s, solve_network n = Ok s.
 
